@@ -7,6 +7,7 @@ package main
 import (
 	"fmt"
 	"math/rand"
+	"strings"
 
 	"github.com/yorkie-team/yorkie/pkg/document"
 	"github.com/yorkie-team/yorkie/pkg/document/change"
@@ -64,6 +65,87 @@ func callsOn(seed int64, k int, root *json.Object, c *Ctx) {
 	}
 }
 
+// docUpdStep is one scripted update of a scenario: calls made by the callback, and how it ends.
+type docUpdStep struct {
+	calls func(root *json.Object)
+	out   string // ok | err | panic
+}
+
+// runDocUpdScenario replays a fixed, named history (regression witnesses of repaired defects).
+func runDocUpdScenario(c *Ctx, name string) error {
+	scenarios := map[string][]docUpdStep{
+		// a callback that edits and then panics must not leave its edits in the clone
+		"panic-dirty-clone": {
+			{func(r *json.Object) { r.SetInteger("a", 1) }, "ok"},
+			{func(r *json.Object) { r.SetInteger("b", 2) }, "panic"},
+			{func(r *json.Object) { r.SetInteger("c", 3) }, "ok"},
+		},
+		// a clone re-created by DeepCopy after a failed update must keep the order of an array
+		// that contains a moved element
+		"deepcopy-moved-array": {
+			{func(r *json.Object) { r.SetNewArray("l").AddInteger(1, 2, 3) }, "ok"},
+			{func(r *json.Object) { r.GetArray("l").MoveAfterByIndex(2, 0) }, "ok"},
+			{func(r *json.Object) { r.SetInteger("x", 1) }, "err"},
+			{func(r *json.Object) { r.GetArray("l").AddInteger(4) }, "ok"},
+			{func(r *json.Object) { r.GetArray("l").InsertIntegerAfter(0, 5) }, "ok"},
+		},
+	}
+	steps, ok := scenarios[name]
+	if !ok {
+		return fmt.Errorf("docupd: unknown scenario %q", name)
+	}
+	c.Trace("docupd-scn-" + name)
+	c.Cmd("SCN %s", name)
+	c.Obs("scenario")
+	d := document.New("doc-upd")
+	var a time.ActorID
+	a[11] = 7
+	d.SetActor(a)
+	d.SetStatus(document.StatusAttached)
+	for _, st := range steps {
+		cp, err := d.InternalDocument().DeepCopy()
+		if err != nil {
+			return err
+		}
+		shadow := cp.ToDocument()
+		before := len(shadow.CreateChangePack().Changes)
+		if err := shadow.Update(func(root *json.Object, p *presence.Presence) error { st.calls(root); return nil }); err != nil {
+			return err
+		}
+		n := 0
+		for _, cn := range shadow.CreateChangePack().Changes[before:] {
+			for _, op := range cn.Operations() {
+				c.Cmd("BUF %s", encOp(op))
+				c.Obs("ok")
+				n++
+			}
+		}
+		pre := snapUpd(d)
+		safely(func() {
+			_ = d.Update(func(root *json.Object, p *presence.Presence) error {
+				st.calls(root)
+				switch st.out {
+				case "err":
+					return fmt.Errorf("callback failed")
+				case "panic":
+					panic("callback panicked")
+				}
+				return nil
+			})
+		})
+		c.Cmd("UPD %s %d", st.out, n)
+		c.Obs("done")
+		if st.out != "ok" {
+			if post := snapUpd(d); post != pre {
+				c.Oracle("failed update (%s) changed the document: before=%+v after=%+v", st.out, pre, post)
+			}
+		}
+		observeUpd(c, d)
+	}
+	c.Nontrivial()
+	return nil
+}
+
 func runDocUpd(c *Ctx) error {
 	c.stats.Rule = "single Document with random updates whose callback succeeds / returns an error after j calls / " +
 		"panics after j calls / is rejected by the size limit, interleaved with remote change packs from a peer and " +
@@ -72,8 +154,15 @@ func runDocUpd(c *Ctx) error {
 		"failing or panicking callback with j >= 1 followed by a successful update; distinct by trace hash"
 	r := c.Rng
 	defer func() { noArraySet = false }()
-	if c.Replay != nil && !c.ReplaySeed("docupd") {
-		return fmt.Errorf("docupd: replay needs a `T docupd-<seed>-<i>` line (traces are regenerated from the seed)")
+	if c.Replay != nil {
+		for _, l := range c.Replay {
+			if strings.HasPrefix(l, "SCN ") {
+				return runDocUpdScenario(c, strings.TrimPrefix(l, "SCN "))
+			}
+		}
+		if !c.ReplaySeed("docupd") {
+			return fmt.Errorf("docupd: replay needs a `SCN <name>` or a `T docupd-<seed>-<i>` line")
+		}
 	}
 	r = c.Rng
 	for i := 0; i < c.N; i++ {
